@@ -323,3 +323,73 @@ Proof. exact rto_armed_nofin_nonvacuous. Qed.
 
 Print Assumptions c02_zero_window_guard_nonvacuous.
 Print Assumptions c02_rto_armed_nofin_nonvacuous.
+
+(* ================================================================================================
+   Second batch (Conn/C02_Lemmas2.v, Conn/C02_Stall2.v, Conn/C02_Step2.v).
+   Invariant rm (C02_Lemmas2): rto_retransmissions > 0 -> the retransmission timer is armed and an
+   undelivered segment exists; it holds of vsock_new and is kept by every event after which the
+   connection goes on (Pending polls, application events). *)
+From Utp Require Import Conn.C02_Pred2 Conn.C02_SegLemmas2 Conn.C02_Lemmas2 Conn.C02_Stall2 Conn.C02_Step2.
+
+Theorem c02_rm_initial : forall (CC : Type) (cci : cc_iface CC) (mk : Z -> Z -> CC) (c : vconfig) (s : vsock CC),
+  vsock_new cci mk c = Some s -> rm s.
+Proof. exact @rm_vsock_new. Qed.
+
+Theorem c02_rm_invariant : forall (CC : Type) (cci : cc_iface CC) (s : vsock CC) (o : vop),
+  rm s -> poll_finished (vstep_out cci s o) = false -> rm (vstep_state cci s o).
+Proof. exact @rm_vstep_live. Qed.
+
+(* ---- RTO mode is always left again (class of C02-a): every step, every trace ---- *)
+Theorem c02_rto_mode_armed_every_step : forall (CC : Type) (cci : cc_iface CC) (cfg : vconfig) (s : vsock CC) (o : vop),
+  rm s -> c02_rto_mode_armed cfg (VSock_Lemmas.fstep_of cci s o) = true.
+Proof. exact @c02_rto_mode_armed_step. Qed.
+
+Theorem c02_rto_mode_armed_every_trace : forall (CC : Type) (cci : cc_iface CC) (cfg : vconfig)
+    (mk : Z -> Z -> CC) (c : vconfig) (s0 : vsock CC) (ops : list vop),
+  vsock_new cci mk c = Some s0 -> forallb (c02_rto_mode_armed cfg) (ftrace cci s0 ops) = true.
+Proof. exact @c02_rto_mode_armed_trace. Qed.
+
+(* ---- c02_no_silent_stall outside the stranded-segment class: every step, every trace ---- *)
+(* what send_tx_queue leaves behind (model state): Ok, transport writable, no restart => the clause *)
+Theorem c02_send_tx_queue_no_stall : forall (CC : Type) (cci : cc_iface CC) (s s' : vsock CC) (u : unit),
+  rm s -> v_restart s = false -> send_tx_queue cci s = SOk s' u ->
+  v_restart s' = false -> v_transport_pending s' = false -> stall_ok cci s'.
+Proof. exact @send_tx_queue_stall. Qed.
+
+Theorem c02_poll_no_stall : forall (CC : Type) (cci : cc_iface CC) (s s' : vsock CC),
+  rm s -> poll cci s = (s', PollPending) -> v_transport_pending s' = false -> stall_ok cci s'.
+Proof. exact @poll_stall. Qed.
+
+Theorem c02_no_silent_stall_g_every_step : forall (CC : Type) (cci : cc_iface CC) (cfg : vconfig) (s : vsock CC) (o : vop),
+  rm s -> c02_no_silent_stall_g cfg (VSock_Lemmas.fstep_of cci s o) = true.
+Proof. exact @c02_no_silent_stall_g_step. Qed.
+
+Theorem c02_no_silent_stall_g_every_trace : forall (CC : Type) (cci : cc_iface CC) (cfg : vconfig)
+    (mk : Z -> Z -> CC) (c : vconfig) (s0 : vsock CC) (ops : list vop),
+  vsock_new cci mk c = Some s0 -> forallb (c02_no_silent_stall_g cfg) (ftrace cci s0 ops) = true.
+Proof. exact @c02_no_silent_stall_g_trace. Qed.
+
+Theorem c02_rto_mode_armed_nonvacuous :
+  exists w cfg ops,
+    vconfig_ok cfg = true /\ Forall op_msg_ok ops /\
+    existsb (fun st => (0 <? f_rto_retx (fs_post st)) && negb (poll_ready (fs_result st))) (wtrace w cfg ops) = true /\
+    forallb (c02_rto_mode_armed cfg) (wtrace w cfg ops) = true.
+Proof. exact rto_mode_armed_nonvacuous. Qed.
+
+Theorem c02_no_silent_stall_g_nonvacuous :
+  exists w cfg ops,
+    vconfig_ok cfg = true /\ Forall op_msg_ok ops /\
+    existsb stall_guard_but_window (wtrace w cfg ops) = true /\
+    forallb (c02_no_silent_stall cfg) (wtrace w cfg ops) = true.
+Proof. exact no_silent_stall_g_nonvacuous. Qed.
+
+Print Assumptions c02_rm_initial.
+Print Assumptions c02_rm_invariant.
+Print Assumptions c02_rto_mode_armed_every_step.
+Print Assumptions c02_rto_mode_armed_every_trace.
+Print Assumptions c02_send_tx_queue_no_stall.
+Print Assumptions c02_poll_no_stall.
+Print Assumptions c02_no_silent_stall_g_every_step.
+Print Assumptions c02_no_silent_stall_g_every_trace.
+Print Assumptions c02_rto_mode_armed_nonvacuous.
+Print Assumptions c02_no_silent_stall_g_nonvacuous.
